@@ -1186,7 +1186,19 @@ func (r *runner) randomOp() {
 		}
 		r.opSeek(id, g.rng(id == 0 && w.nodes[0].kind != "mem"))
 	case 5:
-		r.opSeekAsync(pickTop(rd), g.rng(false))
+		id := pickTop(rd)
+		if len(wr) > 0 && !inWindow && g.r.Chance(1, 2) {
+			// the caller writes into the scanned range of the same store before it reads the channel
+			id = pickTop(wr)
+			sr := g.rng(false)
+			if g.r.Chance(1, 4) && bytes.HasPrefix(sr.pfx, daoPrefix) {
+				r.opFindWrites(id, sr.pfx[len(daoPrefix):], sr.bw, r.writesInRange(id, seekRange{pfx: sr.pfx, bw: sr.bw}), g.r.Bool())
+			} else {
+				r.opSeekAsyncWrites(id, sr, r.writesInRange(id, sr), g.r.Chance(2, 3))
+			}
+			return
+		}
+		r.opSeekAsync(id, g.rng(false))
 	case 6, 7:
 		sr := g.rng(false)
 		// the dao prepends its own prefix: keep only what follows it
